@@ -372,13 +372,24 @@ func c10Items(tier string, mk func(tier string, tags map[string]int, focus []str
 			items = append(items, Item{Name: fmt.Sprintf("uniform%d/focus{%s}", cfg, strings.Join(fs, ",")), MaxDevs: -1, Run: mk(tier, tv, fs, deep, 2)})
 		}
 	}
+	// (C) the record variant with optional parts behind pointers (Ptr(Struct), Ptr(Int) next to a direct record),
+	// uniform tag configurations × ≤2 focus units
+	pf := recordFieldsPtr()
+	ptrUnits := skelUnits(recordSkel(FEMap, map[string]int{shapeKey: 1}, false), 2)
+	for _, cfg := range []int{0, 1, 2, 3} {
+		tv := uniformTags(pf, cfg)
+		tv[shapeKey] = 1
+		for _, fs := range focusSets(ptrUnits, 2) {
+			items = append(items, Item{Name: fmt.Sprintf("ptr-record/uniform%d/focus{%s}", cfg, strings.Join(fs, ",")), MaxDevs: -1, Run: mk(tier, tv, fs, false, 2)})
+		}
+	}
 	return items
 }
 
 func init() {
 	Register(&Prop{
 		ID:    "C10",
-		Rule:  "one execution = one record case: record schema Struct{s,i,l:[]string,n:Struct{s2,b2[,d:Struct{s3,i3}]}} × struct-tag assignment (per field none | zog | source | both | source with [] suffix | foreign tags whose key ends in the source tag name | zog tag containing a comma; ≤2 fields deviating × ≤1 focus unit, and the six uniform assignments × ≤2 focus units) × front end {Go map, zjson, zhttp JSON, zhttp JSON of unknown length, form, query, env} (+Validate for Go values) × focus units over Required × tests × input classes × identity and reversed field visit order at every struct visit (both relative orders of any two fields); oracle: issue keys/paths == documented key chain, map invariants, $first == first recorded issue, sanitizers; plus IssuePath overrides at root/field/required/element tests; non-trivial = every expressible case; distinct = distinct (front end, mode, tags, expected issues)",
+		Rule:  "one execution = one record case: record schema Struct{s,i,l:[]string,n:Struct{s2,b2[,d:Struct{s3,i3}]}} × struct-tag assignment (per field none | zog | source | both | source with [] suffix | foreign tags whose key ends in the source tag name | zog tag containing a comma; ≤2 fields deviating × ≤1 focus unit, and the six uniform assignments × ≤2 focus units) × front end {Go map, zjson, zhttp JSON, zhttp JSON of unknown length, form, query, env} (+Validate for Go values) × focus units over Required × tests × input classes × identity and reversed field visit order at every struct visit (both relative orders of any two fields); oracle: issue keys/paths == documented key chain, map invariants, $first == first recorded issue, sanitizers; plus IssuePath overrides at root/field/required/element tests; non-trivial = every expressible case; distinct = distinct (front end, mode, tags, expected issues). plus, for sequences whose first call parses the record through a front end, " + callsRule,
 		Floor: 50,
 		Bound: func(tier string) string {
 			if tier == "thorough" {
@@ -393,6 +404,8 @@ func init() {
 		Items: func(tier string) []Item {
 			items := c10Items(tier, c10Scenario)
 			items = append(items, Item{Name: "issuepath", MaxDevs: -1, Run: c10IssuePathScenario})
+			// keys must not depend on what earlier calls read: sequences that start with a record parsed through any front end
+			items = append(items, callsItemsFiltered(tier, "C10", func(class string) bool { return strings.HasPrefix(class, "record") }, "depends-on-history", "nested-call-differs", "earlier-result-changed")...)
 			return items
 		},
 	})
